@@ -46,6 +46,7 @@ type Exec struct {
 	Abstr    map[string]bool // abstraction notes
 	Unsound  map[string]bool // constructs that make results untrustworthy
 	quiet    int             // >0: suppress obligations (spec-level inlining)
+	noCover  int
 	siteCtr  map[string]int
 	depth    int
 	entrySt  *State
@@ -193,7 +194,7 @@ func (ex *Exec) val(fr *Frame, v ssa.Value) Val {
 	case *ssa.Global:
 		return Val{T: x.Type(), Addr: &Addr{Kind: aGlobal, Global: x, T: x.Type().(*types.Pointer).Elem()}}
 	case *ssa.Function:
-		return Val{T: x.Type(), Tm: ex.W.C.Const("fn_"+smt.Mangle(x.String()), smt.Int)}
+		return Val{T: x.Type(), Tm: ex.W.C.IntLit(int64(ex.Prog.FuncID(x)))}
 	case *ssa.Builtin:
 		return Val{T: x.Type(), Tm: ex.W.C.IntLit(0)}
 	}
